@@ -185,7 +185,12 @@ structure LogSt where
 
 def LogSt.init : LogSt := ⟨.zero, 0, 0, []⟩
 
-/-- `lbl[0]`, `lbl[1]` in the `__ttl_days__` scan, `fingerprintLabels` and `encodeLabels` -/
+/-- `lbl[0]`, `lbl[1]` in the `__ttl_days__` scan, `validUTF8Labels` (`l[0]`, `l[1]`), `fingerprintLabels` and
+    `encodeLabels` (jx encoder: `e.FieldStart(l[0]); e.Str(l[1])`). The series rows are decided by
+    `parserDoer.maybeAddFp` per (day, fingerprint, type); it writes `p.seenFpKeys`, a map that `doParseLogs`
+    allocates before the parser goroutine starts (a nil map would fault on the first write); the cache keys
+    travel with the portion (`TimeSeriesFpKeys`) and `doParse` sets them after every promise resolved without
+    error — no fault site, no further wait. -/
 def labelPairs : List (List Nat) → Except Fault Unit
   | [] => .ok ()
   | l :: ls => do
@@ -493,15 +498,25 @@ mutual
 end
 
 mutual
-  /-- the OTLP trace decoder (`OTLPDecoder.writeAttrValue`) does not look into array items -/
+  /-- the OTLP trace decoder: `initAttributesMap` reads `kv.Value.Value` of every KeyValue (top level and
+      inside kvlists); `writeAttrValue` reads the items of an array through `_val.GetValue()` (a getter on
+      every tree), so an item itself never faults, but a kvlist inside it is walked by `initAttributesMap` -/
   def AnyV.derefsT : AnyV → List Bool
     | .absent => [false]
     | .scalar => [true]
-    | .arr _ => [true]
+    | .arr xs => true :: AnyV.derefsTItems xs
     | .kvl xs => true :: AnyV.derefsTList xs
   def AnyV.derefsTList : List AnyV → List Bool
     | [] => []
     | x :: xs => AnyV.derefsT x ++ AnyV.derefsTList xs
+  def AnyV.derefsTItem : AnyV → List Bool
+    | .absent => []
+    | .scalar => []
+    | .arr xs => AnyV.derefsTItems xs
+    | .kvl xs => AnyV.derefsTList xs
+  def AnyV.derefsTItems : List AnyV → List Bool
+    | [] => []
+    | x :: xs => AnyV.derefsTItem x ++ AnyV.derefsTItems xs
 end
 
 inductive LabelShape | pairs (n : Nat) | unknownInput | badQuote
@@ -577,13 +592,13 @@ def otlpLogsItems (rs : List OtlpResourceLogs) : List LogItem :=
         derefItems (AnyV.derefsList attrs) ++
         [.entries ⟨pairLabels attrs.length, 1, [1], 1, [1]⟩])))
 
-inductive FieldKind | str | int | float | other
+inductive FieldKind | str | int | float | other | uint
   deriving DecidableEq, Repr
 
 inductive InfluxLine | bad | point (message : Option FieldKind) (others : List FieldKind) | danglingEscape
   deriving DecidableEq, Repr
 
-def FieldKind.numeric : FieldKind → Bool | .int => true | .float => true | _ => false
+def FieldKind.numeric : FieldKind → Bool | .int => true | .float => true | .uint => true | _ => false
 
 def oneEntry (labels tp : Nat) : EntriesCall := ⟨pairLabels labels, 1, [1], 1, [tp]⟩
 
@@ -597,12 +612,13 @@ def influxItems (ls : List InfluxLine) : List LogItem :=
     | .point none others => (others.filter (·.numeric)).map (fun _ => .entries (oneEntry 2 2)))
 
 /-- Prometheus remote write (`promMetricsProtoDec`): `points` runs across series, a flush every 1000 points
-    passes `fastFillArray(len(ts.GetSamples()))` types (A1, mirrored as it is) -/
+    passes `fastFillArray(len(tsns))` types (A1 fixed by C03: as many types as timestamps); `nSamples` is kept
+    for the shape of the recursion only -/
 def promSeries (nSamples : Nat) : Nat → Nat → Nat → List LogItem
   | 0, _, pending => if pending > 0 then [.fillThenEntries pending ⟨pairLabels 1, pending, List.replicate pending 0, pending, List.replicate pending 2⟩] else []
   | left + 1, points, pending =>
     if points + 1 ≥ 1000 then
-      .fillThenEntries nSamples ⟨pairLabels 1, pending + 1, List.replicate (pending + 1) 0, pending + 1, List.replicate nSamples 2⟩
+      .fillThenEntries (pending + 1) ⟨pairLabels 1, pending + 1, List.replicate (pending + 1) 0, pending + 1, List.replicate (pending + 1) 2⟩
         :: promSeries nSamples left 0 0
     else promSeries nSamples left (points + 1) (pending + 1)
 
@@ -648,6 +664,7 @@ def zipkinItems (spans : List ZSpan) (tailBad : Bool) : List SpanItem :=
 structure OKV where
   key : Nat        -- 0..4 = peer.service, service.name, faas.name, k8s.deployment.name, process.executable.name; other keys ≥ 5
   v : AnyV
+  str : Bool       -- the value is a non-empty string (looked at for scalars only)
   deriving Repr
 
 structure OSpan where
@@ -661,16 +678,28 @@ structure OtlpResourceSpans where
   scopes : List (List OSpan)
   deriving Repr
 
-/-- `getOtlpAttr(attrs, key)` then `val.Value.Value`: the first attribute with that key must have a value -/
+/-- `getOtlpAttr(attrs, key)` = the LAST attribute stored under the key (`otlpAttrIdx`) -/
+def lastAttr (attrs : List OKV) (k : Nat) : Option OKV := attrs.reverse.find? (fun a => a.key == k)
+
+def OKV.present (a : OKV) : Bool := match a.v with | .absent => false | _ => true
+def OKV.nonEmptyString (a : OKV) : Bool := match a.v with | .scalar => a.str | _ => false
+
+/-- second loop of `otlpGetServiceNames` (remote name): every listed key, `val.Value.Value` of the attribute found -/
 def serviceNameDerefs (attrs : List OKV) (keys : List Nat) : List SpanItem :=
-  keys.filterMap (fun k =>
-    match attrs.find? (fun a => a.key == k) with
-    | some a => some (.derefRaw (match a.v with | .absent => false | _ => true))
-    | none => none)
+  keys.filterMap (fun k => (lastAttr attrs k).map (fun a => .derefRaw a.present))
+
+/-- first loop (local name): the keys in order, `val.Value.Value` of the attribute found, `break` at the first
+    non-empty string -/
+def localNameDerefs (attrs : List OKV) : List Nat → List SpanItem
+  | [] => []
+  | k :: ks =>
+    match lastAttr attrs k with
+    | none => localNameDerefs attrs ks
+    | some a => .derefRaw a.present :: (if a.nonEmptyString then [] else localNameDerefs attrs ks)
 
 def otlpSpanItems (resAttrs : List OKV) (s : OSpan) : List SpanItem :=
   let attrs := s.attrs ++ resAttrs
-  serviceNameDerefs attrs [0, 1, 2, 3, 4] ++ serviceNameDerefs attrs [1, 2, 3, 4] ++
+  localNameDerefs attrs [1, 0, 2, 3, 4] ++ serviceNameDerefs attrs [1, 2, 3, 4] ++
   (AnyV.derefsTList (attrs.map (·.v))).map .derefGetter ++
   [.span ⟨s.tid, s.sid, attrs.length + 3, attrs.length + 3, 1⟩]
 
@@ -728,7 +757,8 @@ def profileSites (p : RawProfile) : List ProfItem :=
     s.locs.flatMap (fun l => match l with
       | [] => []
       | f :: _ => [ProfItem.idxCheck l.length 0, .derefRaw f]) ++
-    (if s.locs.isEmpty then [] else (List.range p.types).map (fun j => ProfItem.idxCheck s.values j))) ++
+    -- a sample without a stack is walked as one frame "n/a": `sample.Value[j]` is read for every sample
+    (List.range p.types).map (fun j => ProfItem.idxCheck s.values j)) ++
   (List.range p.types).map (fun i => ProfItem.idxCheck p.types i)
 
 /-- `pProfProtoDec.Decode` / `binaryStreamPProfProtoDec.Decode` up to reading the body: the query parameters -/
